@@ -107,6 +107,18 @@ impl RespReader {
         Ok(n)
     }
 
+    /// Everything that follows on the connection (after an upgrade), until the peer
+    /// closes or the read times out.
+    pub fn drain_to_eof(&mut self) -> Vec<u8> {
+        loop {
+            match self.fill() {
+                Ok(0) | Err(_) => break,
+                Ok(_) => {}
+            }
+        }
+        std::mem::take(&mut self.buf)
+    }
+
     /// Read one response. `head_only`: the request was HEAD (no body follows).
     /// Returns `None` if the peer closed before any byte of a response.
     pub fn read_response(&mut self, head_only: bool) -> Option<RawResponse> {
